@@ -96,6 +96,41 @@ class PathInterp(sym.Interp):
                 if name == "as_mut":
                     v._mut_place = place(n["recv"])
                 return v
+        if "Option<" in recv_ty and name in ("filter", "map", "is_some_and", "is_none_or", "map_or", "unwrap_or", "copied", "cloned", "and_then", "or"):
+            v = self.ev(n["recv"])
+            if isinstance(v, sym.Variant):
+                v = self.norm_opt(v)
+            if isinstance(v, OptVal):
+                if name in ("copied", "cloned"):
+                    return v
+                args = [self.ev(a) for a in n["args"]]
+
+                def app(f, x):
+                    if isinstance(f, sym.ClosureVal):
+                        return self.apply_closure(f, [x], n)
+                    raise sym.Unsupported(n, "Option::%s with a non-closure argument" % name)
+                if name == "unwrap_or":
+                    return v.payload if self.decide(v.some) else args[0]
+                if name == "or":
+                    return v if self.decide(v.some) else (self.norm_opt(args[0]) if isinstance(args[0], sym.Variant) else args[0])
+                if name == "map_or":
+                    return app(args[1], v.payload) if self.decide(v.some) else args[0]
+                if not self.decide(v.some):
+                    return sp.false if name == "is_some_and" else sp.true if name == "is_none_or" else OptVal(sp.false, None)
+                r = app(args[0], v.payload)
+                if name in ("is_some_and", "is_none_or"):
+                    return r
+                if name == "map":
+                    return OptVal(sp.true, r)
+                if name == "and_then":
+                    return self.norm_opt(r) if isinstance(r, sym.Variant) else r
+                # filter
+                if r is sp.true or (r is not sp.false and self.decide(r)):
+                    o = OptVal(sp.true, v.payload)
+                    if hasattr(v, "_mut_place"):
+                        o._mut_place = v._mut_place
+                    return o
+                return OptVal(sp.false, None)
         if name in ("ok_or", "ok_or_else"):
             v = self.ev(n["recv"])
             if isinstance(v, OptVal):
@@ -117,6 +152,31 @@ class PathInterp(sym.Interp):
             x = self.num(self.ev(n["recv"]), n)
             return sp.Ge(x, 0) if name == "is_sign_positive" else sp.Lt(x, 0)
         return sym.Interp.ev_MCall(self, n)
+
+    def bind_refutable(self, pat, val, node=None):
+        if isinstance(val, sym.Variant):
+            val = self.norm_opt(val)
+        k = pat.get("k")
+        d = (pat.get("def") or "").split("::")[-1]
+        if isinstance(val, OptVal) and d in ("Some", "None"):
+            if not self.decide(val.some):
+                return d == "None"
+            if d == "None":
+                return False
+            sub = pat["ps"][0] if k == "PTupleStruct" else pat["fields"][0]["pat"]
+            return self.bind_refutable(sub, val.payload, node)
+        if isinstance(val, ResVal) and d in ("Ok", "Err"):
+            sub = pat["ps"][0] if k == "PTupleStruct" else pat["fields"][0]["pat"]
+            if self.decide(val.okc):
+                return d == "Ok" and self.bind_refutable(sub, val.ok, node)
+            return d == "Err" and self.bind_refutable(sub, val.err, node)
+        if k == "PTuple" and isinstance(val, tuple) and len(val) == len(pat["ps"]):
+            # left to right, stopping at the first mismatch (as the compiled test does)
+            for q, v in zip(pat["ps"], val):
+                if not self.bind_refutable(q, v, node):
+                    return False
+            return True
+        return sym.Interp.bind_refutable(self, pat, val, node)
 
     def ev_Try(self, n):
         v = self.ev(n["e"])
@@ -158,21 +218,41 @@ class PathInterp(sym.Interp):
         if isinstance(v, sym.Variant):
             v = self.norm_opt(v)
         if isinstance(v, OptVal):
-            some_arm = none_arm = None
+            # arms in source order, with guards; the is-some question is decided at most once per evaluation
+            is_some = [None]
+
+            def some():
+                if is_some[0] is None:
+                    is_some[0] = self.decide(v.some)
+                return is_some[0]
             for a in n["arms"]:
-                d = a["pat"].get("def", "")
+                pat = a["pat"]
+                d = pat.get("def", "")
                 if d.endswith("Some"):
-                    some_arm = a
-                elif d.endswith("None") or a["pat"].get("k") == "Wild":
-                    none_arm = a
-            if some_arm is None or none_arm is None:
-                raise sym.Unsupported(n, "match on Option without Some/None arms")
-            if self.decide(v.some):
-                pat = some_arm["pat"]
-                sub = pat["ps"][0] if pat.get("k") == "PTupleStruct" else pat["fields"][0]["pat"]
-                self.bind(sub, v.payload, n)
-                return self.ev(some_arm["body"])
-            return self.ev(none_arm["body"])
+                    if not some():
+                        continue
+                    sub = pat["ps"][0] if pat.get("k") == "PTupleStruct" else pat["fields"][0]["pat"]
+                    mp = getattr(v, "_mut_place", None)
+                    binds = pat_binds(sub)
+                    if mp is not None and len(binds) == 1:
+                        self.alias[binds[0][0]] = mp
+                        self.names[binds[0][0]] = binds[0][1]
+                    else:
+                        self.bind(sub, v.payload, n)
+                elif d.endswith("None"):
+                    if some():
+                        continue
+                elif pat.get("k") == "Wild" or (pat.get("k") == "Bind" and not pat.get("sub")):
+                    if pat.get("k") == "Bind":
+                        self.bind(pat, v, n)
+                else:
+                    raise sym.Unsupported(n, "match arm pattern on an Option")
+                if "guard" in a:
+                    g = self.ev(a["guard"])
+                    if not (g is sp.true or (g is not sp.false and self.decide(g))):
+                        continue
+                return self.ev(a["body"])
+            raise sym.Unsupported(n, "match on Option without a matching arm")
         raise sym.Unsupported(n, "match on %r" % (v,))
 
     def ev_If(self, n):
